@@ -165,14 +165,17 @@ class CtxRecorder:
              ('subcontrary_with', lambda x, y: x.subcontrary_with(y)),
              ('orthogonal_to', lambda x, y: x.orthogonal_to(y))]
 
-    def preds(self):
+    def preds(self, rng=None):
         ms = self.members
+        N = len(ms)
         exts = [self.ext(c) for c in ms]
+        # every row of the predicate matrix on small lattices, a spread of rows (all columns) on large ones
+        xs = list(range(N)) if N <= 72 or rng is None else sorted({0, 1, N - 1, N - 2, N // 2} | set(rng.sample(range(N), 24)))
         for name, fn in self.PREDS:
-            rows = [[j for j, y in enumerate(ms) if fn(x, y)] for x in ms]
-            self.ev('pred', name=name, exts=exts, rows=rows)
-        rows = [[j for j, y in enumerate(ms) if x <= y] for x in ms]
-        self.ev('pred.intents', ints=[self.P(c.intent) for c in ms], rows=rows)
+            rows = [[j for j, y in enumerate(ms) if fn(ms[x], y)] for x in xs]
+            self.ev('pred', name=name, exts=exts, xs=xs, rows=rows)
+        rows = [[j for j, y in enumerate(ms) if ms[x] <= y] for x in xs]
+        self.ev('pred.intents', ints=[self.P(c.intent) for c in ms], xs=xs, rows=rows)
 
     # ------------------------------------------------------------------ C09
     def traverse(self, name, idxs):
@@ -429,7 +432,25 @@ def sample_subsets(n, count, rng):
     return out
 
 
-def drive(rec, table, b, families, rng, exhaustive_queries, nsub=10, nmulti=12, label_variant=0):
+def pick_pairs(N, rng, limit):
+    """All ordered pairs on small lattices; on large ones whole rows/columns of the pair matrix for a few
+    members (first, second, last, middle, around 255/256/257 and 511/512) plus a random sample."""
+    if N * N <= limit:
+        return list(itertools.product(range(N), repeat=2))
+    anchors = sorted({0, 1, 2, N - 1, N // 2} | {k for k in (255, 256, 257, 511, 512, 1023) if k < N})
+    out = set()
+    step = max(1, N // 96)
+    for a in anchors:
+        for j in list(range(0, N, step)) + [k for k in (254, 255, 256, 257, 258, 510, 511, 512, 513) if k < N]:
+            out.add((a, j))
+            out.add((j, a))
+    target = min(N * N, limit + 2 * len(anchors) * (N // step))
+    while len(out) < target:
+        out.add((rng.randrange(N), rng.randrange(N)))
+    return sorted(out)
+
+
+def drive(rec, table, b, families, rng, exhaustive_queries, nsub=10, nmulti=12, label_variant=0, construct=True):
     """Record one behaviour: construct the context, then the calls of the requested families."""
     n, m = table.n, table.m
     prop = sorted(families)[0][:3]
@@ -444,8 +465,13 @@ def drive(rec, table, b, families, rng, exhaustive_queries, nsub=10, nmulti=12, 
                    exc=type(exc).__name__, msg=str(exc)[:300])
             return False
 
-    if not T(rec.new, table, b, label_variant):
-        return
+    if construct:
+        if not T(rec.new, table, b, label_variant):
+            return
+    else:
+        # re-query an OLDER, still live context object after other contexts with the same labels were built
+        rec.b = b
+        rec.ev('ctx.new', n=n, m=m, rows=table.rows, tag=table.tag + ':requery-live-object')
     if exhaustive_queries and n <= 5 and m <= 5:
         osubs = list(subsets_all(n))
         psubs = list(subsets_all(m))
@@ -514,9 +540,7 @@ def drive(rec, table, b, families, rng, exhaustive_queries, nsub=10, nmulti=12, 
     except Exception:
         N = 0
     if 'C07' in families:
-        pairs = list(itertools.product(range(N), repeat=2))
-        if len(pairs) > 150:
-            pairs = rng.sample(pairs, 150)
+        pairs = pick_pairs(N, rng, 150)
         for i, j in pairs:
             for name in ('join', 'meet'):
                 T(rec.joinmeet, name, 'nary', [i, j])
@@ -530,15 +554,15 @@ def drive(rec, table, b, families, rng, exhaustive_queries, nsub=10, nmulti=12, 
             T(rec.joinmeet, 'join', 'nary', idxs)
             T(rec.joinmeet, 'meet', 'nary', idxs)
     if 'C08' in families:
-        T(rec.preds)
+        T(rec.preds, rng)
     if 'C09' in families:
-        singles = range(N) if N <= 64 else rng.sample(range(N), 64)
+        singles = range(N) if N <= 64 else sorted({0, 1, N - 1, N - 2, N // 2} | set(rng.sample(range(N), 40)))
         for i in singles:
             T(rec.traverse, 'upset', [i])
             T(rec.traverse, 'downset', [i])
         pairs = list(itertools.product(range(N), repeat=2))
         if len(pairs) > 100:
-            pairs = rng.sample(pairs, 100)
+            pairs = rng.sample(pairs, 100) + [(0, N - 1), (1, 2), (N - 2, N - 3)]
         for i, j in pairs:
             T(rec.traverse, 'upset_union', [i, j])
             T(rec.traverse, 'downset_union', [i, j])
